@@ -31,6 +31,22 @@ use futures::{future::BoxFuture, stream::FuturesUnordered, Stream, StreamExt};
 use multiaddr::{Multiaddr, Protocol};
 use tokio::sync::mpsc::{channel, Receiver, Sender};
 
+#[cfg(not(feature = "verif"))]
+use std::{
+    collections::{HashMap, HashSet},
+    fmt::Debug,
+    pin::Pin,
+    sync::{
+        atomic::{AtomicUsize, Ordering},
+        Arc,
+    },
+    task::{Context, Poll, Waker},
+    time::{Duration, Instant},
+};
+// Under feature `verif` the keep-alive tracker reads the harness-driven virtual clock instead of the real one.
+#[cfg(feature = "verif")]
+use crate::verif_clock::Instant;
+#[cfg(feature = "verif")]
 use std::{
     collections::{HashMap, HashSet},
     fmt::Debug,
@@ -42,14 +58,6 @@ use std::{
     task::{Context, Poll, Waker},
     time::Duration,
 };
-
-// The keep-alive tracker's clock: the real one, or the harness-driven virtual clock under feature `verif`.
-#[cfg(feature = "verif")]
-use crate::verif_clock::{sleep as keep_alive_sleep, Instant};
-#[cfg(not(feature = "verif"))]
-use std::time::Instant;
-#[cfg(not(feature = "verif"))]
-use tokio::time::sleep as keep_alive_sleep;
 
 /// Logging target for the file.
 const LOG_TARGET: &str = "litep2p::transport-service";
@@ -177,7 +185,10 @@ impl KeepAliveTracker {
             // Refill futures if there is no pending keep-alive timeout.
             let timeout = self.keep_alive_timeout;
             self.pending_keep_alive_timeouts.push(Box::pin(async move {
-                keep_alive_sleep(timeout).await;
+                #[cfg(not(feature = "verif"))]
+                tokio::time::sleep(timeout).await;
+                #[cfg(feature = "verif")]
+                crate::verif_clock::sleep(timeout).await;
                 (peer, connection_id)
             }));
         }
@@ -242,7 +253,10 @@ impl Stream for KeepAliveTracker {
 
                     // Refill the keep alive timeouts.
                     self.pending_keep_alive_timeouts.push(Box::pin(async move {
-                        keep_alive_sleep(timeout).await;
+                        #[cfg(not(feature = "verif"))]
+                        tokio::time::sleep(timeout).await;
+                        #[cfg(feature = "verif")]
+                        crate::verif_clock::sleep(timeout).await;
                         key
                     }));
 
